@@ -154,6 +154,8 @@ func (hr *historyRepository) recordMiniblock(blockHeaderHash []byte, blockHeader
 	}
 
 	if hr.hasRecentlyInsertedMiniblockMetadata(miniblockHash, blockHeaderHash, epoch) {
+		// a competing block might have included some of these transactions in other miniblocks in the meantime
+		hr.indexTransactionsOfMiniblock(miniblock, miniblockHash)
 		return nil
 	}
 
@@ -196,6 +198,12 @@ func (hr *historyRepository) recordMiniblock(blockHeaderHash []byte, blockHeader
 
 	hr.markMiniblockMetadataAsRecentlyInserted(miniblockHash, blockHeaderHash, epoch)
 
+	hr.indexTransactionsOfMiniblock(miniblock, miniblockHash)
+
+	return nil
+}
+
+func (hr *historyRepository) indexTransactionsOfMiniblock(miniblock *block.MiniBlock, miniblockHash []byte) {
 	for _, txHash := range miniblock.TxHashes {
 		errPut := hr.miniblockHashByTxHashIndex.Put(txHash, miniblockHash)
 		if errPut != nil {
@@ -203,8 +211,6 @@ func (hr *historyRepository) recordMiniblock(blockHeaderHash []byte, blockHeader
 			continue
 		}
 	}
-
-	return nil
 }
 
 func (hr *historyRepository) computeMiniblockHash(miniblock *block.MiniBlock) ([]byte, error) {
